@@ -8,7 +8,7 @@ use crate::net::*;
 use crate::refmodel::{ActK, ObjK};
 use crate::tape::{payload, Tape};
 use crate::tens;
-use crate::{ensure, fail};
+use crate::fail;
 use neurons::network::Network;
 use neurons::tensor::Tensor;
 use serde_json::{json, Value};
@@ -230,6 +230,7 @@ fn check(case: &Case, ev: &mut CaseEv, tier: Tier) -> CheckResult {
             learn_step: false,
             isolation: false,
             connects: accepted.clone(),
+            after_learn: false,
         };
         let mut ev2 = CaseEv::default();
         let r = c01::check(&c, &mut ev2, tier);
